@@ -33,12 +33,18 @@ pub fn property() -> Property {
 pub enum Step {
     Seq,
     Burst(u8),
+    /// a quiet period in units of 100 ms (only in histories with short timers)
+    Pause(u8),
 }
 
 #[derive(Clone, Debug, Serialize, Deserialize)]
 pub struct ReuseCase {
     pub min_idle: usize,
     pub steps: Vec<Step>,
+    /// true: check interval 1 s / idle timeout 2 s (so that quiet periods can outlast the timeout);
+    /// false: the defaults 30 s / 60 s, no timer ever fires during the history
+    #[serde(default)]
+    pub short_timers: bool,
 }
 
 pub struct ReuseFam;
@@ -127,13 +133,21 @@ impl Family for ReuseFam {
     }
     fn strategy(&self, _tier: Tier) -> BoxedStrategy<ReuseCase> {
         let step = prop_oneof![4 => Just(Step::Seq), 1 => (2u8..6).prop_map(Step::Burst)];
-        (0usize..=3, proptest::collection::vec(step, 2..14)).prop_map(|(min_idle, steps)| ReuseCase { min_idle, steps }).boxed()
+        let step_t = prop_oneof![4 => Just(Step::Seq), 1 => (2u8..4).prop_map(Step::Burst), 2 => prop_oneof![Just(5u8), Just(25), Just(35)].prop_map(Step::Pause)];
+        prop_oneof![
+            2 => (0usize..=3, proptest::collection::vec(step, 2..14)).prop_map(|(min_idle, steps)| ReuseCase { min_idle, steps, short_timers: false }),
+            1 => (1usize..=2, proptest::collection::vec(step_t, 2..7)).prop_map(|(min_idle, steps)| ReuseCase { min_idle, steps, short_timers: true }),
+        ]
+        .boxed()
     }
     fn fixed_cases(&self, _tier: Tier) -> Vec<ReuseCase> {
         vec![
-            ReuseCase { min_idle: 1, steps: vec![Step::Seq, Step::Seq] },
-            ReuseCase { min_idle: 1, steps: vec![Step::Seq; 6] },
-            ReuseCase { min_idle: 0, steps: vec![Step::Burst(3), Step::Seq, Step::Seq, Step::Seq] },
+            ReuseCase { min_idle: 1, steps: vec![Step::Seq, Step::Seq], short_timers: false },
+            ReuseCase { min_idle: 1, steps: vec![Step::Seq; 6], short_timers: false },
+            ReuseCase { min_idle: 0, steps: vec![Step::Burst(3), Step::Seq, Step::Seq, Step::Seq], short_timers: false },
+            // a quiet period longer than the idle timeout: the reaper keeps min idle sessions for reuse
+            ReuseCase { min_idle: 1, steps: vec![Step::Seq, Step::Pause(35), Step::Seq], short_timers: true },
+            ReuseCase { min_idle: 2, steps: vec![Step::Burst(3), Step::Pause(35), Step::Seq, Step::Seq], short_timers: true },
         ]
     }
     fn case_budget_s(&self) -> u64 {
@@ -146,7 +160,11 @@ impl Family for ReuseFam {
             w.rt.block_on(async {
                 let case = c;
                 let fwd = start_forwarder(w.server).await?;
-                let pool = SessionPoolConfig { check_interval: Duration::from_secs(30), idle_timeout: Duration::from_secs(60), min_idle_sessions: case.min_idle };
+                let pool = if case.short_timers {
+                    SessionPoolConfig { check_interval: Duration::from_secs(1), idle_timeout: Duration::from_secs(2), min_idle_sessions: case.min_idle }
+                } else {
+                    SessionPoolConfig { check_interval: Duration::from_secs(30), idle_timeout: Duration::from_secs(60), min_idle_sessions: case.min_idle }
+                };
                 let client = real_client(fwd.addr, anytls_rs::padding::DEFAULT_PADDING_SCHEME, pool)?;
                 let socks = start_socks5(client.clone()).await?;
                 let target = w.echo_a.addr;
@@ -194,6 +212,15 @@ impl Family for ReuseFam {
                                     ));
                                 }
                             }
+                        }
+                        Step::Pause(ds) => {
+                            tokio::time::sleep(Duration::from_millis(*ds as u64 * 100)).await;
+                            if case.short_timers && *ds >= 20 {
+                                // the reaper may have closed pooled sessions that outlived the idle timeout,
+                                // but never below the configured minimum: from here on `pooled` is a lower bound
+                                pooled = pooled.min(case.min_idle as i64);
+                            }
+                            continue;
                         }
                         Step::Burst(b) => {
                             seq_run = 0;
@@ -245,6 +272,7 @@ impl Family for ReuseFam {
         out.class_if(seqs >= 3, "sequential>=3");
         out.class_if(burst_then_seq, "burst-then-sequential");
         out.class_if(case.min_idle == 0, "min_idle=0");
+        out.class_if(case.steps.iter().any(|s| matches!(s, Step::Pause(d) if *d >= 20)) && case.short_timers, "quiet-period>idle-timeout");
         Ok(out)
     }
 }
